@@ -4,7 +4,7 @@ from . import routers, sweeps, c07, common as K
 
 EXPLANATION = (
     "Structural conditions decided statically: (D1) PollAI on the pub/sub router — single-slot FIFO discipline (K1 no overwrite of buffered_item, "
-    "K9 nothing is handed to the fan-out while buffered_item still holds a message, routing facts: only items yielded by the publisher streams are "
+    "K9 nothing is handed to the fan-out while buffered_item still holds a message, K6 no poll can go round for ever without consuming anything (a spinning router delivers nothing), routing facts: only items yielded by the publisher streams are "
     "stored and sent), K3 poll_ready before start_send; (D2) FanoutMany sweep rule — every iteration path of each of the four Sink methods handles "
     "exactly one entry and then advances or evicts it, the bound is re-read after evictions (index rule, E4), the item flows only into clone() and "
     "the elements' start_send; (D3) flush obligations — K4/K5/K10 (no park while dirty / with unregistered sources, nothing dropped unflushed) and "
@@ -16,7 +16,7 @@ ASSUMPTIONS = ["operation table of DESIGN §5", "FramedWrite/quinn deliver what 
 def run(ctx):
     F = ctx.facts("quick")
     K.socket_pass_through(ctx, F, "C01.D5")
-    ex, sd, cfg = routers.report(ctx, F, "pubsub", "C01", lambda f: f.kind in ("K1", "K3", "K4", "K5", "K7", "K9", "K10", "K13"))
+    ex, sd, cfg = routers.report(ctx, F, "pubsub", "C01", lambda f: f.kind in ("K1", "K3", "K4", "K5", "K6", "K7", "K9", "K10", "K13"))
     ctx.floor("C01.pollai.persistent-states", len(ex.persistent), 4)
     ops = ex.h.ops_seen
     ctx.floor("C01.pollai.sink-ops", sum(1 for k in ops if k[0] == "sink"), 3)
